@@ -96,8 +96,10 @@ def main():
     t0 = time.time()
     failures, evaluations, distinct, samples = [], 0, set(), []
     for mname, mk in models.ALL.items():
-        if mname == "names":
-            continue        # unsorted graph: cloning rejects it with a clear error, which the statement allows
+        if mname in ("names", "unsorted_subgraph"):
+            # a graph (or nested body) whose nodes are not in topological order: the cloner documents sortedness as its
+            # precondition and rejects such a graph with an error, which the statement allows
+            continue
         for how in ("from_proto", "rebuilt-shapes"):
             proto = mk()
             base = ir.from_proto(proto)
